@@ -59,17 +59,13 @@ func (t *Time) Compare(other Object) (int, error) {
 	if !ok {
 		return 0, errz.TypeErrorf("type error: unable to compare time and %s", other.Type())
 	}
-	if t.value == otherStr.value {
-		return 0, nil
-	}
-	if t.value.After(otherStr.value) {
-		return 1, nil
-	}
-	return -1, nil
+	// Compare instants: two times in different locations (or with and
+	// without a monotonic clock reading) may denote the same instant.
+	return t.value.Compare(otherStr.value), nil
 }
 
 func (t *Time) Equals(other Object) Object {
-	if other.Type() == TIME && t.value == other.(*Time).value {
+	if other.Type() == TIME && t.value.Equal(other.(*Time).value) {
 		return True
 	}
 	return False
